@@ -23,7 +23,7 @@ EXPLANATION = (
     "with identical (position, width) makes layer index and position equal in both runs for every label."
 )
 BOUNDS = {
-    "quick": dict(labels="2..3", histories="twice, reconf, renodes, engine2, subset, stale (<= 6 engine calls); all permutations of <= 3 labels", value_box="positions in [-20,130], widths in (0,80], spacing in [0,10]; bounds (0,100) and (None,100)"),
+    "quick": dict(labels="2..3", histories="twice, reconf, renodes, engine2, subset, stale, interleaved engines (<= 6 engine calls); all permutations of <= 3 labels", value_box="positions in [-20,130], widths in (0,80], spacing in [0,10]; bounds (0,100) and (None,100)"),
     "thorough": dict(labels="1..3, 4 for compute-twice with the overlap algorithm", grid="bounds {(0,100),(None,100),(0,60)}, density {0.85,0.5}, stubWidth {1,5}"),
 }
 OUTSIDE = ["more than 4 labels / 6 engine calls", "labels sharing a data position with different widths (their order follows the input order, by the statement)"]
